@@ -13,28 +13,29 @@ Proof. intros. ci x. Qed.
 Lemma st_eqb_true : forall a b, st_eqb a b = true -> a = b.
 Proof. destruct a, b; simpl; congruence. Qed.
 
-Lemma GI_put_same : forall H J D w c x',
+Lemma GI_put_same : forall H J (D : dctx) w c x',
   GI H J D w -> CI (H c) (J c) (D c) (cnt c (jobs w)) (mem_id c (s_list w)) x' ->
-  (c_ph x' = PNone <-> c_ph (conns w c) = PNone) -> GI H J D (put c x' w).
+  (c_ph x' = PNone <-> c_ph (conns w c) = PNone) -> c_alloc x' = c_alloc (conns w c) -> GI H J D (put c x' w).
 Proof. intros. eapply GI_put; eauto. Qed.
 
 Section Dispatch.
   Variable cb : kind -> nat -> world -> R.
   Hypothesis Hcb : cb_ok cb.
 
-  Lemma req_loop_ok : forall n H J D c avail w,
+  Lemma req_loop_ok : forall n H J (D : dctx) c avail w,
     GI H J D w -> 1 <= H c -> c_st (conns w c) = ESTABLISHED ->
     safe (fun w' _ => GI H J D w') (req_loop true cb n c avail w).
   Proof.
     induction n; intros H J D c avail w G Hh S; simpl; auto.
     pose proof G as (A & _ & _). pose proof (A c) as Ac.
     assert (L : live (conns w c)) by (eapply CI_h_live; eauto).
-    apply safe_chk. { eapply CI_live_alloc; eauto. }
-    apply safe_chks.
+    assert (Al : c_alloc (conns w c) = true) by (eapply CI_live_alloc; eauto).
+    apply safe_chk; auto.
+    apply safe_chks; [apply (GI_svc_alive _ _ _ _ c G Al)|].
     destruct (c_nreq (conns w c) <=? 0); simpl; auto.
     set (w1 := put c _ w).
     assert (G1 : GI H J D w1).
-    { unfold w1. apply GI_put_same; [exact G | apply CI_nreq; exact Ac | simpl; tauto]. }
+    { unfold w1. apply GI_put_same; [exact G | apply CI_nreq; exact Ac | simpl; tauto | reflexivity]. }
     destruct (CI_est_facts _ _ _ _ _ _ Ac L S) as (F1 & _).
     assert (P1 : c_ph (conns w1 c) = PCre) by (unfold w1; simpl; rewrite updf_same; simpl; auto).
     apply safe_bind.
@@ -46,18 +47,19 @@ Section Dispatch.
     - intros w2 r (-> & G2). cbv beta.
       pose proof G2 as (A2 & _ & _). pose proof (A2 c) as Ac2.
       assert (L2 : live (conns w2 c)) by (eapply CI_h_live; eauto).
-      apply safe_chk. { eapply CI_live_alloc; eauto. }
-      apply safe_chks. cbn [andb].
+      assert (Al2 : c_alloc (conns w2 c) = true) by (eapply CI_live_alloc; eauto).
+      apply safe_chk; auto.
+      apply safe_chks; [apply (GI_svc_alive _ _ _ _ c G2 Al2)|]. cbn [andb].
       destruct (st_eqb (c_st (conns w2 c)) ESTABLISHED) eqn:E; simpl; auto.
       apply st_eqb_true in E.
       destruct (ret <? 0); simpl; auto.
       destruct ((avail - 1 >? 0) && (c_fc (conns w2 c) =? 0)); simpl; auto.
     - pose proof G1 as (A1 & _ & _). specialize (A1 c).
-      apply GI_put_same; [exact G1 | rewrite <- P1; apply CI_setph_same; exact A1 | rewrite P1; simpl; split; congruence].
+      apply GI_put_same; [exact G1 | rewrite <- P1; apply CI_setph_same; exact A1 | rewrite P1; simpl; split; congruence | reflexivity].
   Qed.
 
   (* qb_ipcs_dispatch_connection_request on an ESTABLISHED connection *)
-  Lemma dispatch_ok : forall shm H J D c hup w,
+  Lemma dispatch_ok : forall shm H J (D : dctx) c hup w,
     GI H J D w -> live (conns w c) -> c_st (conns w c) = ESTABLISHED ->
     safe (fun w' _ => GI H J D w') (dispatch shm true cb c hup w).
   Proof.
@@ -87,7 +89,7 @@ Section Dispatch.
     - apply safe_chk; auto.
       destruct (negb (c_fc (conns w0 c) =? 0)).
       + apply Fin; auto.
-      + apply safe_chks.
+      + apply safe_chks; [apply (GI_svc_alive _ _ _ _ c G0 (Al0 w0 G0))|].
         destruct (shm && (q_len c w0 =? 0)).
         * apply Fin; auto.
         * apply safe_bind. eapply safe_mono; [| apply (req_loop_ok 51 (addf H c 1) J D c (q_len c w0) w0); auto].
@@ -97,7 +99,7 @@ Section Dispatch.
   Qed.
 
   (* _sock_connection_liveliness *)
-  Lemma liveliness_ok : forall H J D c w,
+  Lemma liveliness_ok : forall H J (D : dctx) c w,
     GI H J D w -> live (conns w c) -> safe (fun w' _ => GI H J D w') (liveliness true cb c w).
   Proof.
     intros. unfold liveliness. apply safe_chk.
